@@ -10,9 +10,20 @@ def replay_obligation(ob_id: str, doc: Dict[str, Any]) -> Optional[Tuple[str, st
     from pyvc import native
     recipe = doc.get('recipe') or {}
     if 'target' not in recipe or 'seed' not in recipe:
-        # a refutation without a concrete input: re-run the obligation itself
-        raise SystemExit('this replay file records a solver refutation without a concrete input; '
-                         're-run the property check to re-evaluate the obligation')
+        # a refutation without a concrete input: the replay re-generates and re-discharges that obligation
+        # from the current source
+        fn_, clause = recipe.get('function'), recipe.get('clause')
+        if not fn_ or not clause:
+            raise SystemExit('replay file names neither an input nor an obligation')
+        from pyvc.verify import verify_function
+        r = verify_function(fn_, only=clause.split('#')[0], timeout_ms=8000)
+        if r.error or r.unsupported:
+            return clause, 'obligation cannot be generated on this tree: ' + (r.error or r.unsupported)[:300]
+        bad = {k: v for k, v in r.clauses.items() if k.split('#')[0] == clause.split('#')[0] and v['verdict'] != 'discharged'}
+        if not bad:
+            return None
+        k, v = sorted(bad.items())[0]
+        return clause, f'obligation {fn_}.{k} is {v["verdict"]} on this tree (no failing input known): {v["detail"][:300]}'
     v = native.run_trial(recipe['target'], recipe['seed'])
     if v is None:
         return None
